@@ -462,6 +462,20 @@ class Executor:
         if re.fullmatch(r"(std::thread::)?sleep", f):
             st.events.append(("sleep", bool(st.lock_held)))
             return Outcome("sleep", st, resume=ret_bb, resume_body=st.body_name, lock_held=bool(st.lock_held))
+        if re.match(r"^(std|core)::mem::replace::<", f):
+            c = deref(args[0])
+            old = st.heap[c]
+            st.heap[c] = args[1]
+            return old
+        if re.match(r"^(std|core)::mem::swap::<", f):
+            a, b = deref(args[0]), deref(args[1])
+            st.heap[a], st.heap[b] = st.heap[b], st.heap[a]
+            return UNIT
+        if re.match(r"^(std|core)::mem::take::<(bool|usize)>", f):
+            c = deref(args[0])
+            old = st.heap[c]
+            st.heap[c] = B(False) if old[0] == "bool" else I(0)
+            return old
         if re.match(r"^std::mem::drop::<", f):
             r = self.drop_value(st, args[0], body, t)
             if r is not None:
